@@ -84,7 +84,7 @@ def compare(pid, case, mline, iline):
 
 FIXED_SEEN = []
 FIXED2_SEEN = []
-FIXED2_EXPECTED = "fixed sigconn M:x=22,r=27,seen=5,size=0,conn=0,after=1/0 C:x=32,r=27,size=0,conn=0 F:x=42,s=n=77,r=42,size=0 R:ref=1,cref=1,hideref=1,hidecref=1 P:x=22,r=27,seen=5,bx=21,br=28,bseen=12,cx=32,cr=27 Q:pf=1,hide=1,bind=1 V:1e2e3e4ee N:-7,1,-3,200,25,-9"
+FIXED2_EXPECTED = "fixed sigconn M:x=22,r=27,seen=5,size=0,conn=0,after=1/0 C:x=32,r=27,size=0,conn=0 F:x=42,s=n=77,r=42,size=0 R:ref=1,cref=1,hideref=1,hidecref=1 P:x=22,r=27,seen=5,bx=21,br=28,bseen=12,cx=32,cr=27 Q:pf=1,hide=1,bind=1 V:1e2e3e4ee N:-7,1,-3,200,25,-9 A:emit=1,call=1,n=23 T:ccc0"
 FIXED_EXPECTED = "fixed slotref A:outer_nonempty=1,inner_empty=1 B:inner_empty=1,outer_empty=1,copy_empty=0 C:inner_empty=1,outer_empty=1 D:outer2_empty=1"
 
 
@@ -160,6 +160,29 @@ def build_and_run(cases, workdir, variant="asan", keep_opt=False):
             results.update(out)
             failures.update(bad)
     return (results, failures), None
+
+
+def fixed_scenarios_only(v, pid):
+    """build one translation unit with a single trivial case so that the fixed scenarios of
+    harness/expr_prelude.h run, and check their outcome (used by checks whose own harness is the SigCore
+    driver but whose property also speaks about spellings only the scenarios cover: accumulators returning
+    references (C13), exceptions through raw method pointers (C08))"""
+    del FIXED2_SEEN[:]
+    c = gen_expr.Case(0, ("leaf", 1, 0), True, ["v"], [11])
+    workdir = os.path.join(BUILD, "fixed-%s-%d" % (pid, os.getpid()))
+    try:
+        res, err = build_and_run([c], workdir)
+    finally:
+        shutil.rmtree(workdir, ignore_errors=True)
+    seen = sorted(set(FIXED2_SEEN))
+    v.coverage["fixed_scenarios"] = {"seen": [x[:80] + "..." for x in seen[:1]], "matches_expected": seen == [FIXED2_EXPECTED]}
+    if err or (res and res[1]):
+        msg = err or list(res[1].values())[0]
+        v.violation("fixed-scenario-rejected", {"property": pid, "broken": "a fixed scenario of harness/expr_prelude.h (a documented, well-typed use of the library) is rejected by the compiler",
+                                                "compiler_output": msg[-2500:], "source": "harness/expr_prelude.h"})
+    elif seen != [FIXED2_EXPECTED]:
+        v.violation("fixed-scenario", {"property": pid, "broken": "a fixed scenario of harness/expr_prelude.h gives a different outcome (or crashed)",
+                                       "expected": FIXED2_EXPECTED, "got": seen[:2], "run_output": (res[0].get(0, "") if res else "")[:300], "source": "harness/expr_prelude.h: fixed_signal_connect"})
 
 
 def nontrivial(pid, case, mline):
